@@ -144,7 +144,7 @@ DU_MUT = ["register([IR], IP, 'b', 'B')", "register([IR], IP, '', 'NEW')", "subs
           "register([IRsub], IP, 'a', 'A2')  (more specific)"]
 
 
-def run_during(flavour, entry, mut, warm_other):
+def run_during(flavour, entry, mut, warm_other, trace=False):
     from zope.interface import Interface
     from zope.interface.adapter import AdapterRegistry, VerifyingAdapterRegistry
     from zope.interface.interface import InterfaceClass
@@ -208,8 +208,10 @@ def run_during(flavour, entry, mut, warm_other):
         st['armed'] = True
     first = call(st)
     if st['armed']:
-        return False             # the call-out point was not reached
+        return None if trace else False             # the call-out point was not reached
     second = call(st)
+    if trace:
+        return dict(first=repr(first), second=repr(second))
     what = '%s: %s of a specification whose subscribe() runs %s while the lookup is in progress' % (flavour, DU_ENTRY[entry], DU_MUT[mut])
     if first != before and first != after:
         raise Violation('%s: answers %r, before the mutation the answer is %r, after it %r' % (what, first, before, after), signature='C05:during:first')
